@@ -11,6 +11,9 @@ implementation's poll lines it learns establishments, closes, deliveries and dro
 * `deliver_*`   a delivered event was pushed, is delivered/dropped at most once, goes to an
                 established connection; `One(c)` only to `c`; `Any(p)` only to a connection of `p`;
 * `order`       numbers delivered to one handler increase (numbers are assigned in emission order);
+* `deliver_any_not_captured`  an `Any` event is delivered only to a connection that was established
+                (reported established and not yet reported closed) when the behaviour emitted it — the
+                harness logs the emission, the monitor snapshots its own established set at that moment;
 * `lost_one`    a dropped `One(c)` event: `c` is not established or a close was requested;
 * `lost_any`    a dropped `Any(p)` event: every connection of `p` that was established when the event
                 was queued and still is, has a close requested.
@@ -34,9 +37,13 @@ structure Mon where
   tgts : List Tgt := []
   deliv : List (Nat × Nat) := []
   drops : List Nat := []
+  /-- event number ↦ connections established when the behaviour emitted it -/
+  emitted : List (Nat × List Nat) := []
   deriving Repr, Inhabited
 
 def Mon.peer (m : Mon) (c : Nat) : Option Nat := (m.peerOf.find? (·.1 == c)).map (·.2)
+
+def Mon.emittedAt (m : Mon) (n : Nat) : Option (List Nat) := (m.emitted.find? (·.1 == n)).map (·.2)
 
 def Mon.closeRequested (m : Mon) (c : Nat) : Bool :=
   m.closeReq.contains c || (match m.peer c with | some p => m.closePeers.contains p | none => false)
@@ -48,11 +55,11 @@ inductive PCmd where
 
 inductive POp where
   | connect (p : Nat) | close (c : Nat) | disconnect (p : Nat) | rclose (c : Nat)
-  | emit (l : List PCmd) | poll
+  | emit (l : List PCmd) | poll | other
   deriving Repr, Inhabited
 
 inductive PRet where
-  | pending | gen | closed (c : Nat) | est (c p : Nat) | fail (c : Nat)
+  | pending | gen | closed (c : Nat) | est (c p : Nat) | fail (c : Nat) | incoming (c : Nat)
   deriving Repr, Inhabited
 
 /-- harness convention: a name not handed out yet when the command is queued denotes no connection -/
@@ -73,6 +80,7 @@ def Mon.op (m : Mon) : POp → Mon
   | .rclose c => { m with closeReq := c :: m.closeReq }
   | .emit l => l.foldl pushCmd m
   | .poll => m
+  | .other => m
 
 def checkDeliv (m : Mon) (c n : Nat) : Option String :=
   match m.tgts[n]? with
@@ -83,7 +91,11 @@ def checkDeliv (m : Mon) (c n : Nat) : Option String :=
     else if m.deliv.any (fun d => d.1 == c && d.2 ≥ n) then some "order"
     else match t with
       | .one c' => if c' == c then none else some "deliver_one_wrong_target"
-      | .any p _ => if m.peer c == some p && m.everEst.contains c then none else some "deliver_any_wrong_target"
+      | .any p _ =>
+        if !(m.peer c == some p && m.everEst.contains c) then some "deliver_any_wrong_target"
+        else match m.emittedAt n with
+          | none => some "deliver_before_emission"
+          | some snap => if snap.contains c then none else some "deliver_any_not_captured"
 
 def checkDrop (m : Mon) (n : Nat) : Option String :=
   match m.tgts[n]? with
@@ -93,7 +105,8 @@ def checkDrop (m : Mon) (n : Nat) : Option String :=
     else match t with
       | .one c => if !m.est.contains c || m.closeRequested c then none else some "lost_one"
       | .any p snap =>
-        if m.est.all (fun c => !(m.peer c == some p && snap.contains c) || m.closeRequested c) then none
+        let cap := (m.emittedAt n).getD snap
+        if m.est.all (fun c => !(m.peer c == some p && cap.contains c) || m.closeRequested c) then none
         else some "lost_any"
 
 def delivAll (m : Mon) : List (Nat × Nat) → Mon × Option String
@@ -112,16 +125,28 @@ def dropAll (m : Mon) : List Nat → Mon × Option String
 
 def applyRet (m : Mon) : PRet → Mon × Option String
   | .est c p =>
-    if m.peer c != some p then (m, some "est_wrong_peer")
-    else if m.everEst.contains c then (m, some "est_twice")
-    else ({ m with est := c :: m.est, everEst := c :: m.everEst }, none)
+    if m.everEst.contains c then (m, some "est_twice")
+    else match m.peer c with
+      | some q =>
+        if q != p then (m, some "est_wrong_peer")
+        else ({ m with est := c :: m.est, everEst := c :: m.everEst }, none)
+      | none =>
+        -- inbound connection: the peer is known only now
+        if c < m.nextConn then
+          ({ m with est := c :: m.est, everEst := c :: m.everEst, peerOf := (c, p) :: m.peerOf }, none)
+        else (m, some "est_unknown_connection")
+  | .incoming c =>
+    if c == m.nextConn then ({ m with nextConn := m.nextConn + 1 }, none) else (m, some "incoming_id")
   | .closed c =>
     if !m.est.contains c then (m, some "closed_unestablished")
     else ({ m with est := m.est.filter (· != c) }, none)
   | _ => (m, none)
 
 /-- judge one implementation poll line -/
-def Mon.poll (m : Mon) (ret : PRet) (deliv : List (Nat × Nat)) (drops : List Nat) : Mon × String :=
+def Mon.poll (m : Mon) (ret : PRet) (deliv : List (Nat × Nat)) (drops : List Nat) (em : List Nat) :
+    Mon × String :=
+  -- emissions (and swarm-level drops) precede the pool report / `advance_local` of the same call
+  let m := { m with emitted := em.map (fun n => (n, m.est)) ++ m.emitted }
   match delivAll m deliv with
   | (m, some k) => (m, "FAIL:" ++ k)
   | (m1, none) =>
